@@ -572,6 +572,7 @@ func run(c *engine.Ctx) {
 	if dir := os.Getenv("C02_DUMP"); dir != "" {
 		dump, _ = os.Create(fmt.Sprintf("%s/dump-%d.txt", dir, os.Getpid()))
 	}
+	chainCases(c)
 	for _, d := range decls(c.Thorough) {
 		for _, scope := range scopes {
 			for _, nf := range nforms() {
@@ -592,6 +593,7 @@ func main() {
 		Rule: "full product declared type {Int?, String?, Int|String, Int|Float, Bool?, Foo02|nil; thorough adds Float?, String|Float} × scope {top level, method local, method parameter} × 38 narrowing forms " +
 			"(truthiness, negation, &&/||, early return/break/continue, while, assignment in condition, ==, <:, <<:, switch patterns, ??, must, as ::T / as T; positive and else-branch polarity) × " +
 			"12 invalidation kinds (none, reassign, 5 closure-call shapes, conditional/loop/back-edge/catch/finally reassign) × 4 probe positions × {typed probe of the narrowed type, typed probe of the complementary type, type-specialised operation}; " +
+			"plus nested narrowing chains: every ordered chain of 2-3 distinct conditions out of {a, not <: Float, <: Int, <: String, not <: Int} on a `String | Int | Float | nil` local, an assignment of nil / String / Int / Float in the innermost block, and one of 7 typed probes after the innermost, middle or outer block (6 720 programs); " +
 			"every program the checker accepts is run; each printed runtime class must be a member of the probe's parameter type; non-trivial = accepted and executed",
 		Assume:      []string{"`v.class.name` reports the runtime class", "method bodies compiled one at a time (MethodCheckConcurrencyLimit=1)", "the std-header return-type clause is covered by C28"},
 		Setup:       func(c *engine.Ctx) { elkrun.Init() },
